@@ -125,6 +125,12 @@ var Programs = map[string]string{
 	"touch_and_revert": "$fresh BALANCE POP 0 0 0 0 CALLVALUE $fresh GAS CALL POP 0 0 REVERT",
 	// self-destructs to the address in calldata[0:32] (zero calldata: to itself)
 	"suicide": "CALLDATASIZE @to JUMPI ADDRESS SELFDESTRUCT :to 0 CALLDATALOAD SELFDESTRUCT",
+	// writes one slot several times in one transaction (set, change, clear), another one set-then-cleared, a third one
+	// overwritten with its own value, then a fourth through a loop: SSTORE metering and refunds depend on the value a
+	// slot had at the START of the transaction
+	"restore": "1 0 SSTORE 2 0 SSTORE 0 0 SSTORE 3 1 SSTORE 0 1 SSTORE 2 SLOAD 2 SSTORE 5 3 SSTORE 6 3 SSTORE 7 3 SSTORE 3 SLOAD 0 MSTORE 32 0 RETURN",
+	// a storage counter incremented three times in one call (slot written repeatedly with changing values)
+	"triple_counter": "0 SLOAD 1 ADD 0 SSTORE 0 SLOAD 1 ADD 0 SSTORE 0 SLOAD 1 ADD DUP1 0 SSTORE 0 MSTORE 32 0 RETURN",
 	// stores the block context (NUMBER, TIMESTAMP, COINBASE) in slots 0..2 and returns NUMBER
 	"store_context": "NUMBER 0 SSTORE TIMESTAMP 1 SSTORE COINBASE 2 SSTORE NUMBER 0 MSTORE 32 0 RETURN",
 	// self-destructs to the caller, whatever the calldata
